@@ -151,11 +151,15 @@ def run(ctx: Ctx):
         raise AnalysisError(f"only {n_samplers} get_sampler(...) attributes found in the generators")
     # constant samplers stay inside [low, high]: 'center' is the midpoint, 'corner' one of the bounds (AST: Uniform(low=e, high=e))
     lo_n, hi_n = fi.params()[2], fi.params()[3]
+    seen_const = set()
     for n in ast.walk(fi.node):
-        if not (isinstance(n, ast.If) and isinstance(n.test, ast.Compare) and len(n.test.comparators) == 1 and isinstance(n.test.comparators[0], ast.Constant)
-                and n.test.comparators[0].value in ("center", "corner")):
+        if not (isinstance(n, ast.If) and isinstance(n.test, ast.Compare) and len(n.test.comparators) == 1 and isinstance(n.test.ops[0], ast.Eq)):
             continue
-        which = n.test.comparators[0].value
+        sides = [x.value for x in (n.test.left, n.test.comparators[0]) if isinstance(x, ast.Constant)]
+        if len(sides) != 1 or sides[0] not in ("center", "corner"):
+            continue
+        which = sides[0]
+        seen_const.add(which)
         from ..model import returned_exprs
         rets = [v for v in returned_exprs(fi.node, within=n.body) if isinstance(v, ast.Call)]
         ok, got = False, "?"
@@ -177,6 +181,8 @@ def run(ctx: Ctx):
         ctx.ob("C18.b", f"get_sampler:{which}:inside-bounds", ok, fi.loc,
                f"'{which}' samples the constant {got}: " + ("the midpoint (low + high) / 2" if which == "center" else "one of the two bounds") + f" -- {ok}",
                construct=f"get_sampler:{which}:value")
+    if seen_const != {"center", "corner"}:
+        raise AnalysisError(f"get_sampler: constant-sampler branches not found ({sorted(seen_const)})")
     # ---------------- key agreement
     for cname, path in T.ALL_ENVS.items():
         env = EnvA(ctx.repo, path, cname)
@@ -247,6 +253,7 @@ def env_generator_attrs(ctx: Ctx):
             ctx.ob("C18.d", f"{cname}:generator-attributes", True, path, f"all self.generator.<attr> reads are defined by {g.name}")
     atsp_triangle(ctx)
     integer_demands(ctx)
+    cvrptw_windows(ctx)
     # C18.f: MTVRP generator -- time windows / service times are times, built from distances through the speed
     from .. import units
     menv = EnvA(ctx.repo, T.ALL_ENVS["MTVRPEnv"], "MTVRPEnv")
@@ -255,6 +262,98 @@ def env_generator_attrs(ctx: Ctx):
         raise AnalysisError("MTVRPGenerator._generate not analysable")
     ctx.fn(gsl_.fi)
     units.obligations(ctx, "C18.f", "MTVRPGenerator._generate", gsl_.it, gsl_.fr, gsl_.where, 15, declared_out=units.MTVRP_CELLS)
+
+
+def cvrptw_windows(ctx: Ctx):
+    """C18.h CVRPTW time windows by bound lineage (sa/bounds.py): for every customer and every draw,
+         window start >= int(dist(depot, i))                 (followed through min/max, truncation, masked repairs)
+         window end   <= max_time - dist - duration          (the vehicle can still return before the depot closes)
+         start, end integer valued and `assert start < end`  => end >= int(dist) + 1 > dist: the window is still open when a
+                                                                vehicle that drives straight from the depot arrives.
+       Rests on the documented precondition max_time >= 2 dist + duration (recorded as assumption)."""
+    from .. import bounds
+    env = EnvA(ctx.repo, T.ALL_ENVS["CVRPTWEnv"], "CVRPTWEnv")
+    g, gsl = generator_slot(ctx.repo, env.cls)
+    if gsl is None or not isinstance(gsl.fr.ret, vg.TD):
+        raise AnalysisError("CVRPTWGenerator._generate not analysable")
+    ctx.fn(gsl.fi)
+    tw = gsl.fr.ret.cells.get("time_windows")
+    if tw is None or nf._fn(nf.strip(tw)) != "torch.stack":
+        raise AnalysisError("CVRPTWGenerator: time_windows is not stack((start, end), -1)")
+    items = nf._seq_items(nf.strip(tw).args[1])
+    if not items or len(items) != 2:
+        raise AnalysisError("CVRPTWGenerator: time_windows is not a (start, end) pair")
+    lo, hi = items
+    # D: distance from the depot with a leading zero for the depot itself
+    Ds = [n for n in vg.walk(lo) if nf._fn(n) in ("torch.cat", "torch.concat") and any(nf._fn(x) == "rl4co.utils.ops:get_distance" for x in vg.walk(n))]
+    Ds = [n for n in Ds if not any(m is not n and m in Ds for m in vg.walk(n))] or Ds
+    if len(Ds) != 1:
+        raise AnalysisError(f"CVRPTWGenerator: depot distance vector not identified ({len(Ds)} candidates)")
+    D = Ds[0]
+    # U: the upper end of the sampling interval, u in `(u - D) * rand`
+    Us = []
+    for n in vg.walk(hi):
+        if n.op == "*" and len(n.args) == 2:
+            for x, t in (n.args, n.args[::-1]):
+                if nf._fn(nf.strip(t)) in bounds.UNIT_CALLS and x.op == "-" and x.args[1] is D and x.args[0] not in Us:
+                    Us.append(x.args[0])
+    if len(Us) != 1:
+        raise AnalysisError(f"CVRPTWGenerator: sampling interval D + (U - D) * rand not identified ({len(Us)} candidates)")
+    U = Us[0]
+    resid = nf.poly(U) - (nf.poly(vg.mk("selfattr", "max_time")) - nf.poly(D))
+    dur_atoms = [a for a in resid.atoms()]
+    is_return_bound = all(nf._fn(a) in ("torch.zeros", "torch.zeros_like") for a in dur_atoms) and all(c == -1 for m, c in resid.terms.items() if m) and resid.const_term() == 0
+    ctx.ob("C18.h", "CVRPTWGenerator:upper-bound = max_time - dist - duration", is_return_bound, gsl.where,
+           f"sampling interval ends at {nf.poly(U).show(2)}", construct="CVRPTWGenerator._generate:upper-bound")
+    PRE = ("max_time >= 2 * dist(depot, i) + duration_i for every customer (the generator's documented precondition: "
+           "'make sure the relation between max_loc and max_time allows for feasible solutions')")
+
+    def slack(u, a):
+        return PRE if (u is U and a is D) else None
+
+    P = bounds.Prover(slack)
+    ok_lo = P.ge(lo, vg.mk("meth", D, "int"))
+    ctx.ob("C18.h", "CVRPTWGenerator:window-start >= int(dist)", ok_lo, gsl.where,
+           "every version of the window start (draws, min/max, depot reset, degenerate-window repair) is bounded below by int(dist(depot, i))"
+           if ok_lo else "lower bound lost: " + "; ".join(P.trace[:2]), construct="CVRPTWGenerator._generate:window-start-lower-bound")
+    P2 = bounds.Prover(slack)
+    ok_hi = P2.le(hi, U)
+    ctx.ob("C18.h", "CVRPTWGenerator:window-end <= max_time - dist - duration", ok_hi, gsl.where,
+           "every version of the window end is bounded above by the return-in-time bound" if ok_hi else "upper bound lost: " + "; ".join(P2.trace[:2]),
+           construct="CVRPTWGenerator._generate:window-end-upper-bound")
+    P3 = bounds.Prover(slack)
+    integral = P3.integral(lo) and P3.integral(hi)
+    strict = False
+    for e in gsl.it.events:
+        if e.kind != "assert":
+            continue
+        for n in vg.walk(e.data if isinstance(e.data, vg.S) else e.data[0]):
+            c = nf._cmp_raw(n)
+            if c is None:
+                continue
+            l, op, r = c
+            if op == "<" and nf.strip(l) is nf.strip(lo) and nf.strip(r) is nf.strip(hi):
+                strict = True
+            if op == ">" and nf.strip(l) is nf.strip(hi) and nf.strip(r) is nf.strip(lo):
+                strict = True
+    direct = False
+    if not (integral and strict and ok_lo):
+        direct = bounds.Prover(slack).ge(hi, D)      # or simply: end >= dist by lineage
+    ctx.ob("C18.h", "CVRPTWGenerator:window-open-on-arrival", (integral and strict and ok_lo) or direct, gsl.where,
+           "end >= dist by lineage" if direct else
+           f"start/end integer valued: {integral}; strict `start < end` asserted on the emitted tensors: {strict}; with start >= int(dist) this gives end >= int(dist) + 1 > dist",
+           construct="CVRPTWGenerator._generate:window-open-on-arrival")
+    # a rescaling of the times must be applied to the coordinates too (change of units)
+    facs = {f.id: f for f in P.factors + P2.factors + P3.factors}
+    if facs:
+        okf = True
+        for key in ("locs", "depot"):
+            v = gsl.fr.ret.cells.get(key)
+            okf = okf and v is not None and any(n.op == "/" and len(n.args) == 2 and isinstance(n.args[1], vg.S) and n.args[1].id in facs for n in vg.walk(v))
+        ctx.ob("C18.h", "CVRPTWGenerator:times-and-coordinates-share-the-scale", okf, gsl.where,
+               f"time windows are divided by {[vg.show(f) for f in facs.values()]}; locs and depot must be divided by the same factor", construct="CVRPTWGenerator._generate:scale")
+    for a in dict.fromkeys(P.assumptions + P2.assumptions):
+        ctx.assume("CVRPTWGenerator: " + a)
 
 
 def _poly_of_expr(e, lo, hi):
